@@ -98,8 +98,9 @@ SinkOK(t, k, q) ==
                    => \E i \in DOMAIN q : q[i].s = s)
 
 (* the published statistics show no live input edge of a non-executing task with *)
-(* points collected on it (a live edge with nothing collected is only reported)  *)
-NoOrphan == Chk("nothing is routed to a task that is not executing", Ln.orphan_collected = 0)
+(* points collected on it (a live edge with nothing collected is only reported;   *)
+(* -1 = not measured at this observation)                                         *)
+NoOrphan == Chk("nothing is routed to a task that is not executing", Ln.orphan_collected <= 0)
 
 TrObsV ==
     /\ IsEv("Obs") /\ Ln.t \in T /\ Ln.t \notin executing
@@ -152,7 +153,7 @@ TrSilentI ==
 TrSyncI == IsEv("Sync") /\ ingest = <<>> /\ UNCHANGED <<vars, inflight>>
 TrObsI ==
     /\ IsEv("Obs") /\ Ln.t \in T /\ Ln.t \notin executing
-    /\ Ln.orphan_edges = 0
+    /\ Ln.orphan_edges <= 0
     /\ Len(Ln.sinks) = Len(def[Ln.t].froms)
     /\ \A k \in DOMAIN Ln.sinks : [i \in DOMAIN Ln.sinks[k] |-> Ln.sinks[k][i].s] = delivered[Ln.t][k]
     /\ UNCHANGED <<vars, inflight>>
